@@ -136,35 +136,59 @@ def to_model(code, atoms):
     return out
 
 
-def loop_arities(code):
-    """per FOR_ITER in order: 0 = plain target, n = UNPACK_SEQUENCE n"""
+def loop_structs(code):
+    """per FOR_ITER in order: the structure of its target as the STORE / UNPACK_SEQUENCE instructions after it give it:
+    a name (str) or a list of sub-structures; None where the target is something else (attribute, subscript, starred)"""
     ins = [i for i in dis.get_instructions(code) if i.opname != 'CACHE']
-    return [(ins[k + 1].arg if ins[k + 1].opname == 'UNPACK_SEQUENCE' else 0) for k, i in enumerate(ins) if i.opname == 'FOR_ITER']
+    def parse(p):
+        i = ins[p]
+        if i.opname in ('STORE_FAST', 'STORE_DEREF'): return i.argval, p + 1
+        if i.opname == 'UNPACK_SEQUENCE':
+            parts = []; p += 1
+            for _ in range(i.arg):
+                r = parse(p)
+                if r is None: return None
+                parts.append(r[0]); p = r[1]
+            return parts, p
+        return None
+    out = []
+    for k, i in enumerate(ins):
+        if i.opname == 'FOR_ITER':
+            r = parse(k + 1)
+            out.append(r[0] if r else None)
+    return out
+
+
+def loop_arities(code):
+    """kept for callers that only need to know whether the item is unpacked: the structure of every loop target"""
+    return loop_structs(code)
+
+
+def make_item(struct, path, mk):
+    """the item a scripted iterator delivers for a target of this structure: one scripted object per name, nested tuples around them"""
+    if isinstance(struct, list): return tuple(make_item(s, path + (j,), mk) for j, s in enumerate(struct))
+    return mk(('item',) + path)
 
 
 def loop_item_names(code):
-    """{target name: tag of the item component the real iterator of that loop delivers}; None if a name is bound twice"""
-    ins = [i for i in dis.get_instructions(code) if i.opname != 'CACHE']
-    sub = {}; k = -1
-    for idx, i in enumerate(ins):
-        if i.opname != 'FOR_ITER': continue
-        k += 1
-        nxt = ins[idx + 1]
-        if nxt.opname == 'UNPACK_SEQUENCE':
-            names = [(j.argval, ('item', k, n)) for n, j in enumerate(ins[idx + 2: idx + 2 + nxt.arg]) if j.opname in ('STORE_FAST', 'STORE_DEREF')]
-            if len(names) != nxt.arg: return None
-        elif nxt.opname in ('STORE_FAST', 'STORE_DEREF'): names = [(nxt.argval, ('item', k))]
-        else: return None
-        for n, t in names:
-            if n in sub: return None
-            sub[n] = t
+    """{target name: tag of the item component the real iterator of that loop delivers}; None if a name is bound twice or a target is not made of names"""
+    sub = {}
+    def walk(struct, path):
+        if isinstance(struct, list): return all(walk(s, path + (j,)) for j, s in enumerate(struct))
+        if struct is None or struct in sub: return False
+        sub[struct] = ('item',) + path
+        return True
+    for k, st in enumerate(loop_structs(code)):
+        if not walk(st, (k,)): return None
     return sub
 
 
 # ------------------------------------------------------------------------------------------------ AST -> model expression
 def flat_targets(t, atoms):
-    if isinstance(t, ast.Name): return [atoms(t.id)]
-    if isinstance(t, (ast.Tuple, ast.List)) and all(isinstance(e, ast.Name) for e in t.elts): return [atoms(e.id) for e in t.elts]
+    """a loop target in the prefix notation of the model: 2 * atom = stored to that name, 2 * n + 1 = unpacked into n components"""
+    if isinstance(t, ast.Name): return [2 * atoms(t.id)]
+    if isinstance(t, (ast.Tuple, ast.List)) and not any(isinstance(e, ast.Starred) for e in t.elts):
+        return [2 * len(t.elts) + 1] + [x for e in t.elts for x in flat_targets(e, atoms)]
     raise Unsupported('target ' + type(t).__name__)
 
 
@@ -228,6 +252,12 @@ class AstModel:
             if len(vals) == 1 and isinstance(vals[0], ast.FormattedValue): return E(vals[0])
             if len(vals) == 1 and isinstance(vals[0], ast.Constant): return E(vals[0])
             return ['app', 'joinedstr', [E(v) for v in vals]]
+        if isinstance(n, ast.Lambda):
+            a = n.args
+            if a.defaults or a.kw_defaults or a.vararg or a.kwarg or a.kwonlyargs or getattr(a, 'posonlyargs', None): raise Unsupported('lambda with defaults / star parameters')
+            k = len(self.nested)
+            self.nested.append(n)          # the function object is an opaque value; its (code, body) pair is checked separately
+            return ['atom', self.atoms('<genexpr:%d>' % k)]
         if isinstance(n, ast.GeneratorExp):
             k = len(self.nested)
             self.nested.append(n)          # the function object is loaded before its first iterable is evaluated
@@ -266,7 +296,7 @@ class Env:
 
 
 import re as _re
-_ADDR = _re.compile(r'0x[0-9a-fA-F]+')
+_ADDR = _re.compile(r'<(?:generator object|function) [^<>]*(?:<[^<>]*>[^<>]*)* at 0x[0-9a-fA-F]+>|0x[0-9a-fA-F]+')
 
 
 def tag_of(v, env):
@@ -347,9 +377,8 @@ class Iter:
             self.index = len(env.loops); env.loops.append(self.tag)
         env.events.append((self.index, self.calls))
         if self.calls > 1: raise StopIteration
-        ar = env.arities[self.index] if self.index < len(env.arities) else 0
-        if ar == 0: return env.make(('item', self.index))
-        return tuple(env.make(('item', self.index, j)) for j in range(ar))
+        st = env.arities[self.index] if self.index < len(env.arities) else None
+        return make_item(st, (self.index,), env.make)
 
 
 def real_run(code, kind, assign, none_candidates=()):
@@ -363,7 +392,7 @@ def real_run(code, kind, assign, none_candidates=()):
     try:
         f = types.FunctionType(code, g, 'f', None, closure)
         if kind == 'lam':
-            args = [env.make(('atom', n)) for n in code.co_varnames[:code.co_argcount]]
+            args = [env.make(('arg', i)) for i in range(code.co_argcount)]      # parameters are positions, whatever they are called
             out = ('ret', tag_of(f(*args), env))
         else:
             gen = f(Iter(('atom', '.0'), env))
@@ -512,8 +541,8 @@ def walk_tree(tree, names, assign, asked, sub, nonec=()):
     if o[0] == 'stuck': return ('stuck',)
     if o[0] == 'ret': return ('ret', val(o[1]))
     for k, (it, targets) in enumerate(o[1]):
-        for j, t in enumerate(targets):
-            if sub.get(names[t]) not in (('item', k), ('item', k, j)): raise SkipValidation('targets recorded by the model differ from the STORE instructions')
+        for t in targets:
+            if t % 2 == 0 and (sub.get(names[t // 2]) or ())[:2] != ('item', k): raise SkipValidation('targets recorded by the model differ from the STORE instructions')
     lo = [val(it) for it, _ in o[1]]
     if any(is_native(x) or x is None for x in lo[1:]): raise SkipValidation('a loop over a CPython object is run by CPython itself')
     y = [val(t) for t in o[2]]
@@ -613,12 +642,12 @@ class RenameFirstIter(ast.NodeTransformer):
         return ast.JoinedStr([self.fv(n)])
 
 
-def recompile(node, kind):
+def recompile(node, kind, params=None):
     """the decompiled AST -> code object again (through ast.unparse, i.e. with exactly the meaning the AST has)"""
     import copy
     node = RenameFirstIter().visit(copy.deepcopy(node))
     src = ast.unparse(node)
-    if kind == 'lam': src = 'lambda: (%s)' % src
+    if kind == 'lam': src = 'lambda %s: (%s)' % (', '.join(params or ()), src)
     top = compile(src, '<c03-decompiled>', 'eval')
     inner = code_consts(top)
     if len(inner) != 1: raise ValueError('recompiled text has %d code objects: %s' % (len(inner), src))
@@ -631,11 +660,14 @@ def prepare(src):
     return prepare_code(code, kind, src)
 
 
-def prepare_code(code, kind, src, node=None, depth=0):
+def prepare_code(code, kind, src, node=None, depth=0, params=None):
     """`node` given: the sub-tree the decompiler produced for a nested generator (first iterable already replaced by `.0`)"""
     atoms = Atoms()
     atoms('.0')
     p = {'src': src, 'kind': kind, 'code': code, 'subs': []}
+    # parameters of a lambda: a top-level decompile() returns only the body (Pony takes the names from the code object); for a nested
+    # lambda they are the ones of the Lambda node the decompiler built
+    p['params'] = (list(code.co_varnames[:code.co_argcount]) if params is None else params) if kind == 'lam' else None
     p['model_code'] = to_model(code, atoms)
     err = None
     if node is None: node, err = decompile_real(code)
@@ -650,6 +682,16 @@ def prepare_code(code, kind, src, node=None, depth=0):
             if depth < 6:
                 import copy
                 for k, (ic, inode) in enumerate(zip(inner, am.nested)):
+                    if isinstance(inode, ast.Lambda):
+                        if ic.co_name != '<lambda>': raise Unsupported('nested lambda does not pair with the code object')
+                        dparams = [x.arg for x in inode.args.args]
+                        sp = prepare_code(ic, 'lam', '%s  [nested lambda %d]' % (src, k), inode.body, depth + 1, dparams)
+                        if dparams != list(ic.co_varnames[:ic.co_argcount]):
+                            # never "proved": the model names parameters, it does not order them; the execution oracle calls both positionally
+                            sp['model_ast'] = None; sp['ast_unsupported'] = 'lambda parameters differ from the code object'; sp['subs'] = []
+                        p['subs'].append(sp)
+                        continue
+                    if ic.co_name != '<genexpr>': raise Unsupported('nested generator does not pair with the code object')
                     inode = copy.copy(inode); inode.generators = list(inode.generators)
                     g0 = copy.copy(inode.generators[0]); g0.iter = ast.Name('.0', ast.Load()); inode.generators[0] = g0
                     p['subs'].append(prepare_code(ic, 'gen', '%s  [nested generator %d]' % (src, k), inode, depth + 1))
@@ -756,6 +798,7 @@ def judge(p, reply, limit=256):
     code, kind, names = p['code'], p['kind'], p['names']
     tree = reply.get('code_tree')
     sub = loop_item_names(code)
+    if sub is not None and kind == 'lam': sub.update({n: ('arg', i) for i, n in enumerate(code.co_varnames[:code.co_argcount])})
     nonec = set()
     cands = set(tree_queries(tree, names, set())) if tree else set()
     if p['model_ast'] is not None: none_operands(p['model_ast'], names, cands)
@@ -787,7 +830,7 @@ def judge(p, reply, limit=256):
     code2 = None
     if p['node'] is not None:
         try:
-            code2, src2 = recompile(p['node'], kind)
+            code2, src2 = recompile(p['node'], kind, p.get('params'))
             res['decompiled'] = src2
         except Exception as e:
             res['recompile_error'] = '%s: %s' % (type(e).__name__, e)
@@ -839,6 +882,7 @@ def show_tag(t):
     if isinstance(t, tuple):
         if t[0] == 'atom': return t[1]
         if t[0] == 'item': return 'item' + '.'.join(str(x) for x in t[1:])
+        if t[0] == 'arg': return 'arg%d' % t[1]
         if t[0] == 'app': return '%s(%s)' % (t[1], ', '.join(show_tag(a) for a in t[2]))
     return repr(t)
 
@@ -1020,7 +1064,7 @@ def violation_key(kind, e):
 
 
 # ------------------------------------------------------------------------------------------------ canonical operators for keys
-TRANSPARENT_UNARY = ('neg', 'attr', 'isnone', 'isnotnone', 'attr2', 'bnot', 'pos', 'clist', 'ctuple', 'starcall')
+TRANSPARENT_UNARY = ('neg', 'attr', 'isnone', 'isnotnone', 'attr2', 'bnot', 'pos', 'clist', 'ctuple', 'starcall', 'walrus', 'listcomp', 'setcomp', 'dictcomp')
 TRANSPARENT_BINARY = ('lt', 'add', 'in', 'sub', 'callkw', 'ne', 'le', 'mul', 'notin', 'call2', 'meth', 'tuple2', 'list2', 'sliceto', 'gt', 'ge', 'subm', 'div', 'fdiv', 'mod', 'pow', 'shl', 'shr', 'band', 'bor', 'bxor', 'matmul', 'set2', 'dict2', 'dictk', 'kwstarcall')
 EXTRA = {'bnot': '~%s', 'pos': '+%s', 'attr2': '%s.q.r', 'ne': '%s != %s', 'le': '%s <= %s', 'mul': '%s * %s', 'notin': '%s not in %s',
          'call2': 'f(%s, %s)', 'meth': '%s.m(%s)', 'tuple2': '(%s, %s)', 'list2': '[%s, %s]', 'sliceto': '%s[:%s]',
@@ -1028,7 +1072,8 @@ EXTRA = {'bnot': '~%s', 'pos': '+%s', 'attr2': '%s.q.r', 'ne': '%s != %s', 'le':
          'gt': '%s > %s', 'ge': '%s >= %s', 'subm': '%s - %s', 'div': '%s / %s', 'fdiv': '%s // %s', 'mod': '%s %% %s', 'pow': '%s ** %s',
          'shl': '%s << %s', 'shr': '%s >> %s', 'band': '%s & %s', 'bor': '%s | %s', 'bxor': '%s ^ %s', 'matmul': '%s @ %s',
          'set2': '{%s, %s}', 'dict2': "{'k': %s, 'j': %s}", 'dictk': '{%s: %s}', 'clist': '%s in [1, 2, 3]', 'ctuple': '%s in (1, 2)',
-         'starcall': 'f(*%s)', 'kwstarcall': 'f(%s, **%s)', 'lamarg': 'f(lambda: %s)', 'lamarg1': 'f(lambda w: %s)',
+         'walrus': '(w := %s)', 'listcomp': '[y for y in %s]', 'setcomp': '{y.p for y in %s}', 'dictcomp': '{y: y.p for y in %s}', 'listcomp2': '[y.p for y in %s if %s]',
+         'starcall': 'f(*%s)', 'kwstarcall': 'f(%s, **%s)', 'lamarg': 'f(lambda: %s)', 'lamarg1': 'f(lambda w: %s)', 'lamarg2': 'f(lambda w, v: %s)',
          'and3': '%s and %s and %s', 'or3': '%s or %s or %s', 'kw2': 'f(%s, k=%s, j=%s)'}
 _render_base = render
 
@@ -1089,7 +1134,7 @@ def rand_expr(rng, size, scope, value_pos=True):
     r = rng.random()
     if r < 0.22 or size == 2:
         k = rng.choice(['not', 'not', 'neg', 'attr', 'call1', 'isnone', 'isnotnone', 'attr2', 'fstr', 'genq'] + (['bnot', 'pos'] if rng.random() < 0.1 else [])
-                       + (['clist', 'ctuple', 'starcall', 'lamarg', 'lamarg1'] if rng.random() < 0.3 else []))
+                       + (['clist', 'ctuple', 'starcall', 'lamarg', 'lamarg1', 'lamarg1', 'walrus', 'listcomp', 'setcomp', 'dictcomp'] if rng.random() < 0.3 else []))
         return (k, rand_expr(rng, size - 1, scope, False))
     if r < 0.80 or size == 3:
         k = rng.choice(['and', 'and', 'or', 'or', 'eq', 'lt', 'add', 'in', 'sub', 'callkw', 'ne', 'le', 'mul', 'notin', 'call2', 'meth', 'tuple2', 'sliceto', 'fstr2', 'gen']
@@ -1107,6 +1152,20 @@ def rand_expr(rng, size, scope, value_pos=True):
 
 
 def rand_program(rng):
+    """a random program that CPython accepts (a walrus in a comprehension iterable, for instance, is a SyntaxError: drawn again)"""
+    import warnings
+    while True:
+        pr = rand_program1(rng)
+        try:
+            with warnings.catch_warnings():
+                warnings.simplefilter('ignore')
+                compile(render_prog(pr), '<c03>', 'eval')
+            return pr
+        except SyntaxError:
+            continue
+
+
+def rand_program1(rng):
     """-> structured program: {'lam': tree} | {'elt': tree, 'clauses': [{'target': str, 'iter': tree|None, 'conds': [tree]}]}"""
     glob = ['a', 'b', 'c', 'd']
     if rng.random() < 0.2:
@@ -1116,7 +1175,11 @@ def rand_program(rng):
     scope = list(glob); clauses = []
     for ci in range(nclauses):
         var = 'xuv'[ci]
-        if rng.random() < 0.2: target, new = '%s, %s2' % (var, var), [var, var + '2']
+        r = rng.random()
+        if r < 0.15: target, new = '%s, %s2' % (var, var), [var, var + '2']
+        elif r < 0.22: target, new = '%s, (%s2, %s3)' % (var, var, var), [var, var + '2', var + '3']
+        elif r < 0.27: target, new = '(%s, %s2), %s3' % (var, var, var), [var, var + '2', var + '3']
+        elif r < 0.29: target, new = '%s, a.t' % var, [var]
         else: target, new = var, [var]
         it = None
         if ci > 0: it = rand_expr(rng, rng.randint(1, 3), scope, False) if rng.random() < 0.7 else ('a', 'U')
@@ -1490,15 +1553,22 @@ def run(ctx):
         shapes.__defaults__[0].clear()
     # operator table: every unary / binary / comparison / display / call form the generator knows, once in every position
     a_, b_, c_, d_ = (('a', n) for n in 'abcd')
-    for k in list(UNARY) + [x for x in ('bnot', 'pos', 'attr2', 'fstr', 'genq', 'clist', 'ctuple', 'starcall', 'lamarg', 'lamarg1')]:
+    for k in list(UNARY) + [x for x in ('bnot', 'pos', 'attr2', 'fstr', 'genq', 'clist', 'ctuple', 'starcall', 'lamarg', 'lamarg1', 'walrus', 'listcomp', 'setcomp', 'dictcomp')]:
         for kind in ('cond', 'elt', 'lam'): programs.append(prog_of(kind, (k, a_)))
     for k in list(BINARY) + ['ne', 'le', 'mul', 'notin', 'call2', 'meth', 'tuple2', 'list2', 'sliceto', 'fstr2', 'gen', 'gt', 'ge', 'subm', 'div', 'fdiv', 'mod',
-                            'pow', 'shl', 'shr', 'band', 'bor', 'bxor', 'matmul', 'set2', 'dict2', 'dictk', 'kwstarcall']:
+                            'pow', 'shl', 'shr', 'band', 'bor', 'bxor', 'matmul', 'set2', 'dict2', 'dictk', 'kwstarcall', 'listcomp2']:
         for kind in ('cond', 'elt', 'lam'): programs.append(prog_of(kind, (k, a_, b_)))
     for k in list(TERNARY) + ['and3', 'or3', 'kw2']:
         for kind in ('cond', 'elt', 'lam'): programs.append(prog_of(kind, (k, a_, b_, c_)))
     for kind in ('cond', 'elt', 'lam'): programs.append(prog_of(kind, ('slice3', a_, b_, c_, d_)))
     programs.append({'lam': ('eq', ('a', 'p'), ('attr', ('a', 'q'))), 'params': 'p, q'})
+    for tgt in ('x, x2', 'x, (x2, x3)', '(x, x2), x3', '(x, (x2, x3)), x4', '[x, x2]', 'x, a.t', 'x, a[0]', 'x, *x2'):
+        programs.append({'elt': ('tuple2', ('a', 'x'), ('a', 'x2')), 'clauses': [{'target': tgt, 'iter': None, 'conds': [('a', 'x2')]}]})
+        programs.append({'elt': ('a', 'x'), 'clauses': [{'target': 'u', 'iter': None, 'conds': []}, {'target': tgt, 'iter': ('attr', ('a', 'u')), 'conds': [('a', 'x2')]}]})
+    for body in (('eq', ('a', 'w'), ('and', ('a', 'a'), ('a', 'b'))), ('ife', ('or', ('a', 'a'), ('not', ('a', 'w'))), ('a', 'b'), ('a', 'c')), ('and', ('a', 'w'), ('ife', ('a', 'a'), ('a', 'b'), ('a', 'c')))):
+        for kind in ('cond', 'elt', 'lam'): programs.append(prog_of(kind, ('lamarg1', body)))
+    for kind in ('cond', 'elt', 'lam'): programs.append(prog_of(kind, ('lamarg2', ('eq', ('attr', ('a', 'w')), ('sub', ('a', 'v'), ('a', 'a'))))))
+    programs.append({'lam': ('eq', ('attr', ('a', 'p')), ('sub', ('a', 'q'), ('a', 'a'))), 'params': 'p, q'})
     n_enum = len(programs)
     for _ in range(ctx.scale(200, 6000)):
         programs.append(rand_program(ctx.rng))
